@@ -44,6 +44,8 @@ type planStep struct {
 	RaceDuring bool `json:"race_during,omitempty"`
 	// Fault: the creation of the table file of this data flush fails (the memory database stays frozen in the family)
 	Fault bool `json:"fault,omitempty"`
+	// FaultOp (cycle steps): a file-system operation of the metadata flush or of a shard's index flush of this job fails
+	FaultOp *faultSpec `json:"fault_op,omitempty"`
 }
 
 type plan struct {
@@ -552,5 +554,11 @@ func histRand(idx int, seed int64) *rand.Rand {
 }
 
 func planFor(idx int, tier string, seed, t0 int64) *plan {
+	switch {
+	case idx >= faultBase:
+		return makeFaultPlan(histRand(idx, seed), idx-faultBase, tier, seed, t0)
+	case idx >= directedBase:
+		return directedPlan(idx-directedBase, t0)
+	}
 	return makePlan(histRand(idx, seed), idx, tier, t0)
 }
